@@ -556,7 +556,9 @@ def evaluate(world, P, s, exe, fp, loaded=None):
         sol = dict(consts)
         for key, v in zip(exe.meta['okeys'], res):
             sol[key] = v
-        return Observation(world, s['placement'], sol)
+        # (root-book schedules: blank fillers of cells never read are nodes
+        # of the model and may be outputs of the function - not observed)
+        return Observation(world, s['placement'], sol, loaded)
     # single formula: arguments are the stored constants (blank otherwise)
     i = exe.meta['cell']
     c = world['cells'][i]
